@@ -62,6 +62,8 @@ pub fn gen_case(prop: &str, seed: u64, tier: &str, run: u64) -> Case {
     match prop {
         "C01" => {
             p.huge_contents = true;
+            // transactions that stay open across another call on the same handle
+            p.w_put_around = 5;
             // second run class "noisy": short writes/reads + EINTR must be invisible
             if rng.chance(1, 3) {
                 nz = Some(noise(&mut rng));
@@ -140,6 +142,7 @@ pub fn gen_case(prop: &str, seed: u64, tier: &str, run: u64) -> Case {
         },
         "C07" => {
             p.huge_contents = true;
+            p.w_put_around = 4;
             p.w_reopen = 4;
             p.w_audit = 12;
             p.w_remove = 15;
@@ -174,6 +177,7 @@ pub fn gen_case(prop: &str, seed: u64, tier: &str, run: u64) -> Case {
                 mode = Mode::Crash { cuts: CutSel::All { max: 60, sseed: rng.next() }, depth: 1, suffix_every: 4, verify: false };
             } else {
                 p.huge_contents = true;
+                p.w_put_around = 4;
                 p.w_reopen = 5;
                 p.w_audit = 15;
                 p.w_put = 40;
@@ -183,6 +187,9 @@ pub fn gen_case(prop: &str, seed: u64, tier: &str, run: u64) -> Case {
         }
         "C13" => {
             p.huge_contents = true;
+            // "a concurrent or later transaction on the same key is unaffected": also sequentially,
+            // one transaction open across another one on the same handle
+            p.w_put_around = 12;
             p.w_abort = 30;
             p.w_reopen = 5;
             p.w_put = 20;
